@@ -1,3 +1,5 @@
+import os
+
 import vlib
 
 CFG = {
@@ -6,7 +8,7 @@ CFG = {
     "prop_file": "theories/Properties/C16.v",
     "theory_files": ["theories/Trees/Octree.v", "theories/Trees/Bvh.v", "theories/Trees/OctreeProofs.v",
                      "theories/Trees/BvhProofs.v", "theories/Trees/ElemProofs.v", "theories/Trees/CheckProofs.v",
-                     "theories/Trees/TriProofs.v", "theories/Trees/MeshProofs.v"],
+                     "theories/Trees/TriProofs.v", "theories/Trees/MeshProofs.v", "theories/Trees/SphereProofs.v"],
     "level_text": "Coq theorems about an executable model of trees/octree.go (newOctree, the five queries) and of "
                   "rendering/bvh.go (BVHNode.Hit) / hit.go (HitList.Hit): for every element list, every maximum depth and "
                   "every query the tree built by the model satisfies the containment invariant, and every tree satisfying "
@@ -21,7 +23,11 @@ CFG = {
                   "element's box - is re-checked per case)",
     "technique": "Coq proof (induction over depth / tree / work list; slab-test monotonicity over Q) + vm_compute correspondence check",
     "design_ref": "DESIGN.md §4 C16, §5 entries 17, 28",
-    "extra_args": ["-bvhmin"],   # BVH rays with a non-zero lower bound (fix b2fa3f0 landed)
+    # -bvhmin: BVH rays with a non-zero lower bound (fix b2fa3f0 landed).  Streams that show findings not yet
+    # landed / listed are off by default: -rawsphere (fixes/c16-sphere-bounding-box, FailKey
+    # bvh:sphere-box-half-size), -emptystrip (fixes/c16-empty-line-strip-octree, FailKey
+    # oct:index-less-line-strip-panics); C16_EXTRA="-rawsphere -emptystrip" switches them on for one run.
+    "extra_args": ["-bvhmin"] + os.environ.get("C16_EXTRA", "").split(),
     "n_quick": 150, "n_thorough": 2000,
     "rule": "element sets of points / line strips / triangles (Mesh.OctTree, OctTreeDepth) and plain boxes (trees.NewOctree…) on "
             "the integer grid: layouts uniform-small, uniform-wide, clustered, coincident, lattice (elements on the cells' "
